@@ -320,27 +320,46 @@ impl FieldParser {
         i: &[u8],
         template: T,
     ) -> IResult<&[u8], Vec<BTreeMap<usize, IPFixFieldPair>>> {
-        // If no fields there are no fields to parse, return an error.
-        let (remaining, mut fields, total_taken) =
-            template.get_fields().iter().enumerate().try_fold(
-                (i, vec![], 0usize),
-                |(remaining, mut fields, total_taken), (c, field)| {
-                    let mut data_field = BTreeMap::new();
-                    let (i, field_value) = field.parse_as_field_value(remaining)?;
-                    let taken = remaining.len().saturating_sub(i.len());
-                    data_field.insert(c, (field.field_type, field_value));
-                    fields.push(data_field);
-                    Ok((i, fields, total_taken.saturating_add(taken)))
-                },
-            )?;
+        let mut fields = vec![];
+        let mut remaining = i;
 
-        if remaining.len() >= total_taken {
-            let (remaining, more) = Self::parse(remaining, template)?;
-            fields.extend(more);
-            return Ok((remaining, fields));
+        // Records are parsed in a loop (not by recursion, which overflows the stack on
+        // sets holding thousands of records) for as long as a complete record fits;
+        // whatever is left after the last complete record is padding.
+        loop {
+            match Self::parse_record(remaining, &template) {
+                Ok((rest, record)) => {
+                    let taken = remaining.len().saturating_sub(rest.len());
+                    fields.extend(record);
+                    remaining = rest;
+                    if taken == 0 || remaining.is_empty() {
+                        break;
+                    }
+                }
+                // The first record has to parse, otherwise the set is not decodable.
+                Err(e) if fields.is_empty() => return Err(e),
+                Err(_) => break,
+            }
         }
 
         Ok((remaining, fields))
+    }
+
+    /// Parses one record: every field of the template, in order.
+    fn parse_record<'a, T: CommonTemplate>(
+        i: &'a [u8],
+        template: &T,
+    ) -> IResult<&'a [u8], Vec<BTreeMap<usize, IPFixFieldPair>>> {
+        template.get_fields().iter().enumerate().try_fold(
+            (i, vec![]),
+            |(remaining, mut fields), (c, field)| {
+                let mut data_field = BTreeMap::new();
+                let (i, field_value) = field.parse_as_field_value(remaining)?;
+                data_field.insert(c, (field.field_type, field_value));
+                fields.push(data_field);
+                Ok((i, fields))
+            },
+        )
     }
 }
 
